@@ -156,7 +156,7 @@ pub fn run(ctx: &Arc<Ctx>) {
     refmodels::selftest::run(&["sm3", "sm9"]).unwrap_or_else(|e| ctx.machinery_error(format!("reference self-test failed: {}", e)));
     let n = sm9::params().n.clone();
     let nm1 = &n - 1u32;
-    ctx.set_rule("Ha = q(N-1)+r as 40 bytes for q in {0,1,2,3, 2^k-1, 2^k, 2^k+1 (k=8..64 step 8), q_max-2..q_max, seeded} x r in {0,1,2,3,5,2^64,2^128,2^192,N-3,N-2,seeded} plus limb-pattern values (all-ones limbs) through the public mod_n_from_hash; H1 for every identity length 0..=300 (thorough 2100) x hid {1,2,3} x {zeros, seeded} and for 12 normalisation-sensitive identities (white space, line ends, NUL, case, trailing hid byte); H2 over message/w lengths {0,1,55,56,384,1024} and every message length 0..=300 (thorough 1200) with a 384-byte w; key extraction for master keys {1,2,N-2,Annex ks,Annex ke,seeded} x identities {Alice,Bob,'',300 bytes,seeded} x {sign,enc,exch}; master keys crafted so that H1+k = 0, +1, -1 mod N and so that the integer H1+k is 2^256+{-2..2} (carry out of 256 bits) or N+{-2..2}, and so that the scalar t2 = k (H1+k)^-1 of the final multiplication is every value within 130 (thorough 600) of 0 and of N. Oracle: (Ha mod (N-1))+1 and [k (H1+k)^-1]P by big integers.");
+    ctx.set_rule("Ha = q(N-1)+r as 40 bytes for q in {0,1,2,3, 2^k-1, 2^k, 2^k+1 (k=8..64 step 8), q_max-2..q_max, seeded} x r in {0,1,2,3,5,2^64,2^128,2^192,N-3,N-2,seeded} plus limb-pattern values (all-ones limbs) through the public mod_n_from_hash; H1 for every identity length 0..=300 (thorough 2100) x hid {1,2,3} x {zeros, seeded} and for 12 normalisation-sensitive identities (white space, line ends, NUL, case, trailing hid byte); H2 over message/w lengths {0,1,55,56,384,1024} and every message length 0..=300 (thorough 1200) with a 384-byte w; key extraction for master keys {1,2,N-2,N-1,Annex ks,Annex ke,seeded} x identities {Alice,Bob,'',300 bytes,seeded} x {sign,enc,exch}; master keys crafted so that H1+k = 0, +1, -1 mod N and so that the integer H1+k is 2^256+{-2..2} (carry out of 256 bits) or N+{-2..2}, so that (H1+k)^-1 is one of {2, 3, 2^64+1, 2^127+3, 2^191+5, 2^192+2^64}, and so that the scalar t2 = k (H1+k)^-1 of the final multiplication is every value within 130 (thorough 600) of 0 and of N. Oracle: (Ha mod (N-1))+1 and [k (H1+k)^-1]P by big integers.");
     let mut g = SplitMix::new(ctx.seed, "c16");
     let mut cases: Vec<Case> = Vec::new();
     let two320: BigUint = BigUint::one() << 320usize;
@@ -242,6 +242,7 @@ pub fn run(ctx: &Arc<Ctx>) {
         ("1".into(), BigUint::one()),
         ("2".into(), BigUint::from(2u32)),
         ("N-2".into(), &n - 2u32),
+        ("N-1".into(), &n - 1u32),
         ("annex-ks".into(), hb("000130E78459D78545CB54C587E02CF480CE0B66340F319F348A1D5B1F2DC5F4")),
         ("annex-ke".into(), hb("0001EDEE3778F441F8DEA3D9FA0ACC4E07EE36C93F9A08618AF4AD85CEDE1C22")),
         ("seeded".into(), g.nonzero_below(&n)),
@@ -290,6 +291,21 @@ pub fn run(ctx: &Arc<Ctx>) {
             }
         }
         ctx.cov("masters_with_chosen_t2", json!(count));
+    }
+    // master keys crafted so that the inverse the extraction computes, (H1 + k)^-1, is a short or sparse value w
+    // (an inversion routine that mishandles results with leading zero limbs): k = w^-1 - H1
+    {
+        let one = BigUint::one();
+        let ws = [BigUint::from(2u32), BigUint::from(3u32), (&one << 64usize) + 1u32, (&one << 127usize) + 3u32, (&one << 191usize) + 5u32, (&one << 192usize) + (&one << 64usize)];
+        for kind in ["sign", "enc", "exch"] {
+            let h = sm9::h1(b"Alice", hid_of(kind));
+            for w in &ws {
+                let k = (w.modpow(&(&n - 2u32), &n) + &n - &h) % &n;
+                if !k.is_zero() {
+                    cases.push(Case::Extract { k: hexbig(&k), id: "Alice".into(), kind: kind.into(), tag: "(H1+k)^-1-short".into() });
+                }
+            }
+        }
     }
     // master keys crafted so that the integer sum H1(ID||hid) + k sits on and next to the carry boundary 2^256 and on
     // and next to N (the wrap of the modular addition), for every identity whose H1 allows a key in [1, N-1]
